@@ -58,6 +58,9 @@ Counted::Counted( const filename::Definition& fname_def, size_t max_entries,
 
 
 /// Checks the currently open file if it can still be used, i.e. it is empty.
+/// <br>
+/// An empty file is the start of a new generation, so the number of entries
+/// written into the current file starts at 0 again.
 ///
 /// @return
 ///    \c true if the current log file can still be used, \c false if the log
@@ -65,7 +68,12 @@ Counted::Counted( const filename::Definition& fname_def, size_t max_entries,
 /// @since  1.11.0, 05.09.2018
 bool Counted::openCheck()
 {
-   return fileSize() == 0;
+
+   if (fileSize() != 0)
+      return false;
+
+   mNumberOfEntries = 0;
+   return true;
 } // Counted::openCheck
 
 
